@@ -274,7 +274,7 @@ Lemma step_forward m now inp :
   let m' := fst (step hash m now inp) in let o := snd (step hash m now inp) in
   (forall id f, sget (m_flows m) id = Some f ->
      (exists f', sget (m_flows m') id = Some f' /\ f_inc f' = f_inc f /\
-                 (f_backend_addr f <> None -> f_backend_addr f' <> None)) \/
+                 (forall b, f_backend_addr f = Some b -> f_backend_addr f' = Some b)) \/
      (sget (m_flows m') id = None /\ In (Some (f_inc f), CloseFlow id) o)) /\
   (forall i id, In (Some i, CloseFlow id) o -> sget (m_flows m') id = None) /\
   (is_client inp = false -> forall id, sget (m_flows m) id = None -> sget (m_flows m') id = None).
@@ -282,7 +282,7 @@ Proof.
   intros HI m' o. pose proof (step_shape hash m now inp HI) as Hs. fold m' o in Hs.
   assert (forall id f, sget (m_flows m) id = Some f ->
             exists f', sget (m_flows m) id = Some f' /\ f_inc f' = f_inc f /\
-                       (f_backend_addr f <> None -> f_backend_addr f' <> None)) as Hsame by (intros; eauto).
+                       (forall b, f_backend_addr f = Some b -> f_backend_addr f' = Some b)) as Hsame by (intros; eauto).
   destruct Hs as [o Ho|m' E1 E2 E3 E4 H5 H6|id f f' pre o Hg Hs Hp Ht Hpre Ho Hmono Hpend'
                  |id f f' pre o Hg Hs Hpre Ho|m' o Hr|src p o m' cl Ei Ht Hd Hc Ho Em Ecl Hne Hpne].
   - repeat split; auto.
@@ -294,8 +294,7 @@ Proof.
     repeat split.
     + intros j g Hj. left. rewrite Hu. destruct (Nat.eqb j id) eqn:E.
       * apply Nat.eqb_eq in E. subst j. rewrite Hg in Hj. inv Hj. exists f'. split; [reflexivity|].
-        split; [apply Hs|]. intros Hb. destruct (f_backend_addr g) as [b|] eqn:Eb; [|congruence].
-        rewrite (Hmono _ eq_refl). discriminate.
+        split; [apply Hs|]. exact Hmono.
       * eauto.
     + intros i j Hin. exfalso. apply in_app_or in Hin. destruct Hin as [Hin|Hin].
       * apply (pre_ok_no_close _ _ _ _ _ _ Hpre Hin).
@@ -334,7 +333,7 @@ Lemma step_open m now inp i id a :
   (exists f, sget (m_flows m) id = Some f /\ f_inc f = i /\ f_backend_addr f = None) /\
   exists o2, snd (step hash m now inp) = (Some i, OpenUpstream id a) :: o2 /\
     (forall x, In x o2 -> match snd x with OpenUpstream _ _ => False | _ => True end) /\
-    ((exists f', sget (m_flows (fst (step hash m now inp))) id = Some f' /\ f_inc f' = i /\ f_backend_addr f' <> None) \/
+    ((exists f', sget (m_flows (fst (step hash m now inp))) id = Some f' /\ f_inc f' = i /\ f_backend_addr f' = Some a) \/
      In (Some i, CloseFlow id) o2).
 Proof.
   intros HI Hin. pose proof (step_shape hash m now inp HI) as Hs.
@@ -353,11 +352,11 @@ Proof.
     + destruct Hin as [E|[E|[E|[]]]]; try discriminate. inv E. eexists. split; [reflexivity|]. split.
       * intros x Hx. cbn in Hx. destruct Hx as [<-|[<-|Hx]]; cbn; auto. eapply Harm; eauto.
       * left. exists f'. unfold updated. cbn. rewrite sget_sset, Nat.eqb_refl, Hg.
-        split; [reflexivity|]. split; [apply Hs | congruence].
+        split; [reflexivity|]. split; [apply Hs | exact Hb'].
     + destruct Hin as [E|[]]. inv E. eexists. split; [reflexivity|]. split.
       * intros x Hx. cbn in Hx. eapply Harm; eauto.
       * left. exists f'. unfold updated. cbn. rewrite sget_sset, Nat.eqb_refl, Hg.
-        split; [reflexivity|]. split; [apply Hs | congruence].
+        split; [reflexivity|]. split; [apply Hs | exact Hb'].
   - apply in_app_or in Hin. destruct Hin as [Hin|Hin].
     + destruct (in_pre_open _ _ _ _ _ _ _ _ Hpre Hin) as (-> & -> & _ & Hb0 & Hb' & _).
       split; [eauto|].
@@ -427,7 +426,7 @@ Fixpoint po_ok (m : mgr) (fl : list nat) (q : list lout) : Prop :=
     | OpenUpstream id a =>
       ~ In id fl /\
       (exists i, fst x = Some i /\
-         ((exists f, sget (m_flows m) id = Some f /\ f_inc f = i /\ f_backend_addr f <> None) \/
+         ((exists f, sget (m_flows m) id = Some f /\ f_inc f = i /\ f_backend_addr f = Some a) \/
           In (Some i, CloseFlow id) q')) /\
       (forall y, In y q' -> ~ is_open_of id y)
     | _ => True
@@ -439,7 +438,8 @@ Record GQ (sh : shell) : Prop := {
   g_bi : BI sh;
   g_flows : NoDup (flows_of (sh_socks sh));
   g_sock : forall s, In s (sh_socks sh) ->
-      (exists f, sget (m_flows (sh_mgr sh)) (s_flow s) = Some f /\ f_inc f = s_inc s /\ f_backend_addr f <> None) \/
+      (exists f, sget (m_flows (sh_mgr sh)) (s_flow s) = Some f /\ f_inc f = s_inc s /\
+                 f_backend_addr f = Some (s_backend s)) \/
       In (Some (s_inc s), CloseFlow (s_flow s)) (sh_q sh);
   g_pc : forall i id, In (Some i, CloseFlow id) (sh_q sh) -> sget (m_flows (sh_mgr sh)) id = None;
   g_po : po_ok (sh_mgr sh) (flows_of (sh_socks sh)) (sh_q sh);
@@ -469,7 +469,7 @@ Lemma po_ok_app m m' fl q o :
   po_ok m fl q ->
   (forall id f, sget (m_flows m) id = Some f ->
      (exists f', sget (m_flows m') id = Some f' /\ f_inc f' = f_inc f /\
-                 (f_backend_addr f <> None -> f_backend_addr f' <> None)) \/
+                 (forall b, f_backend_addr f = Some b -> f_backend_addr f' = Some b)) \/
      (sget (m_flows m') id = None /\ In (Some (f_inc f), CloseFlow id) o)) ->
   (forall id, (exists y, In y q /\ is_open_of id y) -> forall z, In z o -> ~ is_open_of id z) ->
   po_ok m' fl o ->
@@ -493,7 +493,7 @@ Lemma po_ok_in m fl q y id a :
   po_ok m fl q -> In y q -> snd y = OpenUpstream id a ->
   ~ In id fl /\
   exists i, fst y = Some i /\
-    ((exists f, sget (m_flows m) id = Some f /\ f_inc f = i /\ f_backend_addr f <> None) \/
+    ((exists f, sget (m_flows m) id = Some f /\ f_inc f = i /\ f_backend_addr f = Some a) \/
      In (Some i, CloseFlow id) q).
 Proof.
   induction q as [|x q IH]; intros Hpo Hy Ey; [destruct Hy|]. cbn in Hpo. destruct Hpo as (H1 & H2).
@@ -643,16 +643,16 @@ Qed.
 Lemma GQ_same sh sh' :
   GQ sh -> sh_mgr sh' = sh_mgr sh -> sh_q sh' = sh_q sh ->
   flows_of (sh_socks sh') = flows_of (sh_socks sh) ->
-  (forall x, In x (sh_socks sh') -> exists y, In y (sh_socks sh) /\ s_flow y = s_flow x /\ s_inc y = s_inc x /\ s_key y = s_key x) ->
+  (forall x, In x (sh_socks sh') -> exists y, In y (sh_socks sh) /\ s_flow y = s_flow x /\ s_inc y = s_inc x /\ s_key y = s_key x /\ s_backend y = s_backend x) ->
   (forall y, In y (sh_socks sh) -> exists x, In x (sh_socks sh') /\ s_flow y = s_flow x /\ s_inc y = s_inc x /\ s_key y = s_key x) ->
   sh_key2f sh' = sh_key2f sh -> sh_endp sh' = sh_endp sh -> BI sh' -> GQ sh'.
 Proof.
   intros HG E1 E2 E3 Hfw Hbw E4 E5 HB. destruct HG as [gi gb gf gs gp go gk ge gl].
   constructor; rewrite ?E1, ?E2, ?E3, ?E4, ?E5; auto.
-  - intros x Hx. destruct (Hfw x Hx) as (y & Hy & A & B & C). rewrite <- A, <- B. apply gs. exact Hy.
+  - intros x Hx. destruct (Hfw x Hx) as (y & Hy & A & B & C & D). rewrite <- A, <- B, <- D. apply gs. exact Hy.
   - intros k id Hk. destruct (gk k id Hk) as (y & Hy & A & B). destruct (Hbw y Hy) as (x & Hx & A' & B' & C').
     exists x. split; [exact Hx|]. split; congruence.
-  - intros x Hx. destruct (Hfw x Hx) as (y & Hy & A & B & C). rewrite <- A, <- C. apply ge. exact Hy.
+  - intros x Hx. destruct (Hfw x Hx) as (y & Hy & A & B & C & D). rewrite <- A, <- C. apply ge. exact Hy.
 Qed.
 
 Lemma sock_of_flow_none l id : sock_of_flow l id = None -> forall s, In s l -> s_flow s <> id.
@@ -845,7 +845,7 @@ Proof.
   destruct (sock_of_tok_In _ _ _ Hs) as (Hin & _).
   apply (GQ_same sh); cbn [with_socks sh_mgr sh_q sh_socks sh_key2f sh_endp]; auto.
   - apply (set_sock_flows (sh_socks sh) t s s' Hs eq_refl eq_refl).
-  - intros x Hx. destruct (set_sock_in (sh_socks sh) t s s' x Hs eq_refl Hx) as [->|Hx']; [exists s; auto | exists x; auto].
+  - intros x Hx. destruct (set_sock_in (sh_socks sh) t s s' x Hs eq_refl Hx) as [->|Hx']; [exists s; repeat split; auto | exists x; repeat split; auto].
   - intros y Hy. destruct (set_sock_rev (sh_socks sh) t s s' y Hs eq_refl Hy) as [->|Hy'].
     + exists s'. split; [apply (set_sock_has (sh_socks sh) t s s' Hs eq_refl) | auto].
     + exists y. auto.
@@ -858,7 +858,7 @@ Lemma GQ_fields sh sh' :
   sh_opened sh' = sh_opened sh -> sh_closed sh' = sh_closed sh -> GQ sh'.
 Proof.
   intros HG E1 E2 E3 E4 E5 E6 E7 E8. apply (GQ_same sh); auto; try congruence.
-  - rewrite E3. intros x Hx. exists x. auto.
+  - rewrite E3. intros x Hx. exists x. repeat split; auto.
   - rewrite E3. intros x Hx. exists x. auto.
   - destruct (g_bi _ HG) as (A & B & C & D). unfold BI. rewrite E3, E6, E7, E8. auto.
 Qed.
@@ -1006,7 +1006,8 @@ Lemma quiescent_sockets sh :
   GQ sh -> sh_q sh = [] ->
   NoDup (map s_tok (sh_socks sh)) /\ NoDup (flows_of (sh_socks sh)) /\
   (forall s, In s (sh_socks sh) ->
-     exists f, sget (m_flows (sh_mgr sh)) (s_flow s) = Some f /\ f_inc f = s_inc s /\ f_backend_addr f <> None) /\
+     exists f, sget (m_flows (sh_mgr sh)) (s_flow s) = Some f /\ f_inc f = s_inc s /\
+               f_backend_addr f = Some (s_backend s)) /\
   (forall k id, tget (sh_key2f sh) k = Some id -> exists s, In s (sh_socks sh) /\ s_flow s = id /\ s_key s = Some k) /\
   sh_opened sh = sh_closed sh + length (sh_socks sh).
 Proof.
